@@ -77,11 +77,15 @@ pub struct OdsCell {
     /// further attributes written verbatim after the element name, e.g. ` table:style-name="ce1"`
     /// (leading space included); must not be value attributes
     pub extra_attrs: String,
+    /// `Str("")` only: write the empty paragraph `<text:p></text:p>` (true, the default) or no child at all
+    /// (false) — then the string cell is childless and `self_closing` chooses `<…/>` or `<…></…>`; both read
+    /// as the empty string
+    pub empty_paragraph: bool,
 }
 
 impl OdsCell {
     pub fn new(val: OdsVal) -> OdsCell {
-        OdsCell { val, formula: None, repeat: None, covered: false, display: None, span: None, self_closing: true, raw: None, annotation: None, extra_attrs: String::new() }
+        OdsCell { val, formula: None, repeat: None, covered: false, display: None, span: None, self_closing: true, raw: None, annotation: None, extra_attrs: String::new(), empty_paragraph: true }
     }
     pub fn empty() -> OdsCell {
         OdsCell::new(OdsVal::Empty)
@@ -155,7 +159,8 @@ impl OdsCell {
             }
             OdsVal::Str(s) => {
                 out.push_str(" office:value-type=\"string\"");
-                for p in s.split('\n') {
+                let paras: Vec<&str> = if s.is_empty() && !self.empty_paragraph { vec![] } else { s.split('\n').collect() };
+                for p in paras {
                     body.push_str("<text:p>");
                     body.push_str(&escape_text(p));
                     body.push_str("</text:p>");
@@ -202,6 +207,8 @@ pub struct RowRun {
     pub soft_break_before: bool,
     /// further attributes written verbatim (leading space included), e.g. ` table:style-name="ro1"`
     pub extra_attrs: String,
+    /// a row without cell elements is written `<table:table-row …/>` instead of `<table:table-row …></table:table-row>`
+    pub self_closing: bool,
 }
 
 /// Elements of ODF 1.2 that merely group rows (none of them changes any cell position)
@@ -227,7 +234,7 @@ impl RowWrap {
 
 impl RowRun {
     pub fn new(cells: Vec<OdsCell>) -> RowRun {
-        RowRun { repeat: None, cells, open: vec![], close: 0, visibility: None, soft_break_before: false, extra_attrs: String::new() }
+        RowRun { repeat: None, cells, open: vec![], close: 0, visibility: None, soft_break_before: false, extra_attrs: String::new(), self_closing: false }
     }
     pub fn times(mut self, k: usize) -> RowRun {
         self.repeat = Some(k);
@@ -248,6 +255,10 @@ impl RowRun {
         }
         if let Some(k) = self.repeat {
             out.push_str(&format!(" table:number-rows-repeated=\"{k}\""));
+        }
+        if self.cells.is_empty() && self.self_closing {
+            out.push_str("/>");
+            return;
         }
         out.push('>');
         for c in &self.cells {
@@ -274,6 +285,9 @@ pub struct OdsSheet {
     pub postlude: String,
     /// further attributes of the `table:table` element, verbatim with leading space (` table:protected="true"`)
     pub extra_attrs: String,
+    /// a table without any child (no rows, no prelude / postlude / column declarations) is written
+    /// `<table:table …/>`
+    pub self_closing: bool,
 }
 
 /// Column declarations for `n` columns in one of the legal ODF shapes; `shape` is taken modulo the number of
@@ -323,7 +337,7 @@ pub type Grid = BTreeMap<(u64, u64), (Data, String)>;
 
 impl OdsSheet {
     pub fn new(name: &str, rows: Vec<RowRun>) -> OdsSheet {
-        OdsSheet { name: name.to_string(), rows, display: None, columns_decl: None, prelude: String::new(), postlude: String::new(), extra_attrs: String::new() }
+        OdsSheet { name: name.to_string(), rows, display: None, columns_decl: None, prelude: String::new(), postlude: String::new(), extra_attrs: String::new(), self_closing: false }
     }
     /// Semantic expansion of the runs. Blank runs are skipped without being enumerated, so huge blank
     /// repeats are cheap; a repeated non-blank row/cell is enumerated.
@@ -404,6 +418,10 @@ impl OdsBook {
                 x.push_str(&format!(" table:style-name=\"ta{}\"", i + 1));
             }
             x.push_str(&s.extra_attrs);
+            if s.self_closing && s.rows.is_empty() && s.prelude.is_empty() && s.postlude.is_empty() && s.columns_decl.is_none() {
+                x.push_str("/>");
+                continue;
+            }
             x.push('>');
             x.push_str(&s.prelude);
             if let Some(n) = s.columns_decl {
@@ -548,6 +566,7 @@ mod tests {
         rows[2].cells[1].annotation = Some("a note".into());
         rows[2].cells[1].extra_attrs = " table:style-name=\"ce1\" calcext:value-type=\"boolean\"".into();
         let mut book = OdsBook::new(vec![OdsSheet::new("S 1", rows), OdsSheet::new("empty", vec![])]);
+        book.sheets[1].self_closing = true;
         book.sheets[0].prelude = format!("<table:table-source table:mode=\"copy-all\" xlink:href=\"x.ods\"/>{}{}", shapes_xml("in a shape"), columns_xml(5, 9));
         book.sheets[0].postlude = "<table:named-expressions><table:named-range table:name=\"loc\" table:cell-range-address=\"$'S 1'.$A$1\"/></table:named-expressions>".into();
         book.sheets[0].extra_attrs = " table:protected=\"true\" table:print=\"false\"".into();
@@ -567,5 +586,26 @@ mod tests {
         let mut enc = book.clone();
         enc.encrypted = true;
         assert!(matches!(Ods::new(Cursor::new(enc.to_bytes())), Err(calamine::OdsError::Password)));
+    }
+
+    #[test]
+    fn childless_forms() {
+        let mut e = OdsCell::string("");
+        e.empty_paragraph = false; // <table:table-cell office:value-type="string"/>
+        let mut e2 = e.clone();
+        e2.self_closing = false;
+        let mut blank = RowRun::new(vec![]);
+        blank.self_closing = true;
+        let book = OdsBook::new(vec![OdsSheet::new("S", vec![RowRun::new(vec![e, OdsCell::float(2.0), e2.times(2), OdsCell::float(3.0)]), blank, RowRun::new(vec![OdsCell::float(4.0)])])]);
+        assert!(book.content_xml().contains("<table:table-cell office:value-type=\"string\"/><table:table-cell office:value-type=\"float\""));
+        assert!(book.content_xml().contains("<table:table-row/>"));
+        let mut ods: Ods<_> = Ods::new(Cursor::new(book.to_bytes())).expect("open");
+        let r = ods.worksheet_range("S").unwrap();
+        assert_eq!(r.get_size(), (3, 5));
+        assert_eq!(r.get_value((0, 0)), Some(&Data::String(String::new())));
+        assert_eq!(r.get_value((0, 1)), Some(&Data::Float(2.0)));
+        assert_eq!(r.get_value((0, 3)), Some(&Data::String(String::new())));
+        assert_eq!(r.get_value((0, 4)), Some(&Data::Float(3.0)));
+        assert_eq!(r.get_value((2, 0)), Some(&Data::Float(4.0)));
     }
 }
